@@ -785,6 +785,17 @@ def gen_fx_recursive(rng, linear=False, max_q=None, dead=False, scalar_start=Fal
                 if nodes and rng.random() < 0.7:
                     edges.append({'lab': 'a', 'att': [rng.randrange(len(nodes)) + 1]})
                 rng.shuffle(edges)
+                if sum(1 for e in edges if not els[e['lab']]['t']) >= 2 and rng.random() < 0.6:
+                    # a factor that ONLY this non-linear rule mentions, written after its recursive edges
+                    un = f'u{len(rules)}'
+                    if nodes and rng.random() < 0.5:
+                        els[un] = {'t': True, 'type': ['T']}
+                        wfx[un] = [rng.choice([256, 512, 768]) for _ in range(nls['T'])]
+                        edges.append({'lab': un, 'att': [rng.randrange(len(nodes)) + 1]})
+                    else:
+                        els[un] = {'t': True, 'type': []}
+                        wfx[un] = [rng.choice([256, 512, 768])]
+                        edges.append({'lab': un, 'att': []})
                 rules.append({'lhs': X, 'nodes': nodes, 'edges': edges, 'ext': ext})
         if patterned:
             # a binary nonterminal P whose base rule is an IDENTITY factor (built as a diagonal
@@ -893,6 +904,24 @@ def gen_fx_recursive(rng, linear=False, max_q=None, dead=False, scalar_start=Fal
         ag['patterned_eq'] = bool(patterned)
         return ag
     raise RuntimeError('gen_fx_recursive: no instance found')
+
+
+def with_constant_marker(ag):
+    """For a grammar in which EVERY rule has at most one nonterminal edge (the equations are x = A x + b globally), the
+    grammar with a nullary terminal `lam` added to every rule WITHOUT a nonterminal edge: its sum-product is exactly
+    weight(lam) times the original one (homogeneity of linear systems).  With weight(lam) = exp(-s) the Log-semiring
+    values are the original ones shifted by -s: the same iteration at another magnitude.  None if not applicable."""
+    import copy
+    if 'lam' in ag['els'] or any(sum(1 for e in r['edges'] if not ag['els'][e['lab']]['t']) > 1 for r in ag['rules']):
+        return None
+    b = copy.deepcopy(ag)
+    b['els']['lam'] = {'t': True, 'type': []}
+    b['elorder'] = b['elorder'] + ['lam']
+    b['wfx']['lam'] = [FXS]
+    for r in b['rules']:
+        if not any(not b['els'][e['lab']]['t'] for e in r['edges']):
+            r['edges'].append({'lab': 'lam', 'att': []})
+    return b
 
 
 def build_fgg_fx(ag, kind, dtype):
